@@ -82,6 +82,30 @@ theorem last_eq (s : RState K V) (hs : SInv s) (hsm : Small s) :
 theorem first_eq (s : RState K V) (hs : SInv s) (hsm : Small s) :
     (view s).first Cfg.repaired = .ok ((abs s).head?) := view_first _ s hs hsm
 
+/-- `first()` / `last()` really are the extremes: every stored key lies between them, and they answer `None`
+    exactly on the empty map -/
+theorem first_last_extremes (s : RState K V) (hs : SInv s) (hsm : Small s) :
+    ∃ f l, (view s).first Cfg.repaired = .ok f ∧ (view s).last Cfg.repaired = .ok l ∧
+      (f = none ↔ abs s = []) ∧ (l = none ↔ abs s = []) ∧
+      (∀ a ∈ f, ∀ p ∈ abs s, ord a.1 ≤ ord p.1) ∧ (∀ z ∈ l, ∀ p ∈ abs s, ord p.1 ≤ ord z.1) := by
+  have hso := items_strictly_ascending s hs
+  refine ⟨_, _, first_eq s hs hsm, last_eq s hs hsm, by simp, by simp, ?_, ?_⟩
+  · intro a ha p hp
+    cases hL : abs s with
+    | nil => rw [hL] at ha; simp at ha
+    | cons x xs =>
+      rw [hL] at ha hp hso
+      simp at ha; subst ha
+      rcases List.mem_cons.1 hp with rfl | hp
+      · omega
+      · have := (List.pairwise_cons.1 hso).1 p hp; omega
+  · intro z hz p hp
+    rw [Option.mem_def, List.getLast?_eq_some_iff] at hz
+    obtain ⟨ys, hys⟩ := hz
+    rw [hys] at hp hso
+    rcases List.mem_append.1 hp with hp | hp
+    · have := (List.pairwise_append.1 hso).2.2 p hp z (by simp); omega
+    · simp at hp; subst hp; omega
 /-- every key paired with its current value: what `items()` yields for `k` is what `get` returns -/
 theorem items_pair_current (s : RState K V) (k : K) (hs : SInv s) (hsm : Small s) :
     (view s).get k = .ok (SMap.lookup (abs s) k) := by
